@@ -53,6 +53,10 @@ def run(prog, R):
                 got["Some" if w == ("eq", 1) else "None"] = r
             oks = "None" in got and got["None"][0] == "adt" and got["None"][1] == T + "Type::" + scalar
             oka = "Some" in got and got["Some"][0] == "adt" and got["Some"][1] == T + "Type::" + arr and "ArrayDims::D1" in show(got["Some"][2][0]) and "designator_to_asg" in show(got["Some"][2][0])
+            if k == "Bit":
+                # classical registers carry the declaration's const flag in both forms (qubits have none)
+                oks = oks and len(got["None"][2]) == 1 and isconst(deep_strip(got["None"][2][0]))
+                oka = oka and len(got["Some"][2]) == 2 and isconst(deep_strip(got["Some"][2][1]))
             R.ob("C09.1-type-table", k, oks and oka, st.at, f"{k}: no width => {show(got.get('None'))[:50]}; width => {show(got.get('Some'))[:90]}")
         R.floor("scalar type kinds in the table", len(rows), 10)
     # const-ness per caller
@@ -154,6 +158,28 @@ def run(prog, R):
         R.ob("C09.2-designator-conversion", "u32::try_from(&TExpr) is Ok only for an integer literal with sign == true, via the checked conversion of its value", not badc and nok >= 1 and "sign" in fidx, b.at, f"{nok} Ok paths; {badc[:2]}")
     else:
         R.ob("ANCHOR", "TryFrom<&TExpr> for u32", False, "", "conversion used by designator_to_asg not found")
+    # ---- C09.2 a written designator that yields no width is diagnosed: every path of designator_to_asg that returns
+    # None although a designator expression is present inserts a diagnostic, or is the unresolved-identifier path
+    # (reported by the lookup: C07.5)
+    dz = R.anchor(prog, S2S + "designator_to_asg")
+    if dz:
+        nn, silent = 0, []
+        for p in SymExec(prog, dz, max_paths=2000).paths():
+            if "__diverged__" in p.env:
+                continue
+            rv_ = show(deep_strip(p.env.get(0)))
+            if rv_ != "Option::None" and "FromResidual" not in rv_.split("(")[0]:       # `?` on an Option returns None through FromResidual
+                continue
+            cs = [(show(t), c) for t, c in conds_of(p)]
+            written = any(s_ == "discr(get_ast_designator_expression(designator))" and c == ("eq", 1) for s_, c in cs)
+            if not written:
+                continue
+            nn += 1
+            unresolved = any(s_.startswith("discr(lookup_identifier(") and s_.endswith(".0)") and c != ("eq", 0) for s_, c in cs)
+            if not errors_on(p) and not unresolved:
+                silent.append([x for x in cs if "lookup_identifier" in x[0] or "is_const" in x[0]][-2:])
+        R.ob("C09.2-designator-diagnosed", "a written designator without a usable width is always diagnosed", nn >= 3 and not silent, dz.at,
+             f"{nn} paths return None for a written designator; silent ones: {silent[:2]}" if silent else f"{nn} paths return None for a written designator, each with a diagnostic (or the unresolved-identifier diagnostic of the lookup)")
     # ---- C09.3 const side table
     cd = R.anchor(prog, S2S + "classical_declaration_statement_to_asg_stmt")
     if cd:
